@@ -51,6 +51,7 @@ fn main() {
         "cells" => ops::cells::run(&mut out, &mut rng, thorough),
         "iloc" => ops::iloc::run(&mut out, &mut rng, thorough),
         "geom" => ops::geom::run(&mut out, &mut rng, thorough),
+        "withfaces" => ops::withfaces::run(&mut out, &mut rng, thorough),
         "sched" => ops::sched::run(&mut out, &mut rng, thorough),
         "lowdim" => ops::lowdim::run(&mut out, &mut rng, thorough),
         "periodic3" => ops::periodic::run_periodic3(&mut out, &mut rng, thorough),
